@@ -1290,6 +1290,76 @@ fn directed_restart(s: &mut Session) {
 	}
 }
 
+/// a speed tween measured in audio time is due in audio time: given to a clock that is paused (or not yet
+/// started) it has run its course by the time the clock is started again later than the tween's duration, so
+/// from the first buffer after the start the clock advances at exactly the new speed (dyadic values: exact)
+fn directed_paused_speed_tween(s: &mut Session) {
+	for (sr, buf, tps0, tps1, ran, dur_bufs, paused_bufs) in [
+		(1024u32, 128usize, 8.0f64, 2.0f64, 5usize, 3u64, 6usize),
+		(1024, 128, 2.0, 16.0, 0, 2, 4),
+		(512, 64, 4.0, 1.0, 7, 1, 3),
+		(1024, 128, 8.0, 2.0, 3, 0, 2),
+	] {
+		let per0 = tps0 * buf as f64 / sr as f64;
+		let per1 = tps1 * buf as f64 / sr as f64;
+		let mut ops = vec![Op::AddClock(Spd { kind: 1, x: tps0 })];
+		if ran > 0 {
+			ops.push(Op::Start(0));
+		}
+		for _ in 0..ran {
+			ops.extend([Op::StartProc, Op::Process(buf), Op::StartProc, Op::Obs(0)]);
+		}
+		if ran > 0 {
+			ops.push(Op::Pause(0));
+		}
+		let dur_ns = dur_bufs * buf as u64 * 1_000_000_000 / sr as u64;
+		ops.push(Op::SetSpeed { c: 0, v: Spd { kind: 1, x: tps1 }, start: St::Imm, dur_ns, easing: Easing::Linear });
+		for _ in 0..paused_bufs {
+			ops.extend([Op::StartProc, Op::Process(buf), Op::StartProc, Op::Obs(0)]);
+		}
+		ops.push(Op::Start(0));
+		let after = 5usize;
+		for _ in 0..after {
+			ops.extend([Op::StartProc, Op::Process(buf), Op::StartProc, Op::Obs(0)]);
+		}
+		let sc = Scenario { sr, buf, ops, dyadic: true };
+		let t = run_scenario(&sc, 20000);
+		let desc = scenario_term(&sc, false);
+		s.case("history_directed_paused_speed_tween_f64", desc.clone(), &t.obs64, Some(key_of(&desc)));
+		s.case("history_directed_paused_speed_tween_Q", scenario_term(&sc, true), &t.obsq, None);
+		if !t.complete || t.views.len() != ran + paused_bufs + after {
+			s.fail(desc, "history did not complete".into(), None);
+			continue;
+		}
+		let views: Vec<View> = t.views.iter().map(|x| x.2).collect();
+		let frozen = per0 * ran as f64;
+		for j in 0..paused_bufs {
+			let v = views[ran + j];
+			if v.ticking || v.ticks as f64 + v.fr != frozen {
+				s.fail(desc.clone(), format!("a clock that is not ticking was given a speed tween; {} buffer(s) later it shows {:?} instead of the frozen time {:?}", j + 1, v, frozen), None);
+				break;
+			}
+		}
+		for j in 0..after {
+			let v = views[ran + paused_bufs + j];
+			let want = frozen + per1 * (j + 1) as f64;
+			if !(v.ticking && v.ticks as f64 == want.floor() && v.fr == want - want.floor()) {
+				s.fail(
+					desc.clone(),
+					format!(
+						"a clock that was not ticking (time {frozen:?}) was told to change its speed from {tps0} to {tps1} ticks per second over {dur_bufs} buffer(s) of audio time; {paused_bufs} buffers later it was started: the tween was due long before, so {} buffer(s) after the start it must show {:?} ticks, but it shows {:?} (the speed change did not take effect when it was due)",
+						j + 1,
+						want,
+						v
+					),
+					None,
+				);
+				break;
+			}
+		}
+	}
+}
+
 /// what happens around a sound that waits for a clock time and is paused while it waits
 #[derive(Clone, Copy, Debug)]
 struct PausedWaiter {
@@ -1863,6 +1933,7 @@ pub fn run(args: &Args) {
 
 	// ---- directed scenarios, the same on every run (independent of the seed), first
 	directed_restart(&mut s);
+	directed_paused_speed_tween(&mut s);
 	directed_paused_waiter(&mut s);
 
 	// ---- model correspondence: dyadic regime (binary64 and exact rationals), arbitrary regime (binary64)
